@@ -1,6 +1,10 @@
 import Carquet.Util
 import Driver.Ops.Alloc
+import Driver.Ops.ApiErr
+import Driver.Ops.ApiMeta
+import Driver.Ops.ApiSchema
 import Driver.Ops.Bloom
+import Driver.Ops.C08More
 import Driver.Ops.Crc
 import Driver.Ops.Cursor
 import Driver.Ops.Delta
@@ -20,6 +24,7 @@ import Driver.Ops.Snappy
 import Driver.Ops.Stats
 import Driver.Ops.Thrift
 import Driver.Ops.ThriftPageIndex
+import Driver.Gen.ApiSchema
 import Driver.Gen.ParDict
 import Driver.Gen.RefFiles
 /-
@@ -30,7 +35,11 @@ open Carquet.Util
 
 def handlers : List (Line → Option Verdict) :=
   [ Driver.Ops.Alloc.handle,
+    Driver.Ops.ApiErr.handle,
+    Driver.Ops.ApiMeta.handle,
+    Driver.Ops.ApiSchema.handle,
     Driver.Ops.Bloom.handle,
+    Driver.Ops.C08More.handle,
     Driver.Ops.Crc.handle,
     Driver.Ops.Cursor.handle,
     Driver.Ops.Delta.handle,
@@ -71,7 +80,8 @@ partial def loop (h : IO.FS.Stream) (out : IO.FS.Stream) : IO Unit := do
 /-- Generators (`driver --gen <name> <seed> <quick|thorough>`): the Lean side produces inputs for
 the real code (reference-written files for C06); each returns the lines to hand to the harness. -/
 def generators : List (String × (Nat → Bool → List String)) :=
-  [ ("pardict", Driver.Gen.ParDict.gen),
+  [ ("apischema", Driver.Gen.ApiSchema.gen),
+    ("pardict", Driver.Gen.ParDict.gen),
     ("reffiles", Driver.Gen.RefFiles.gen) ]
 
 def main (args : List String) : IO Unit := do
